@@ -245,3 +245,10 @@ OBLIGATIONS = [Obligation(
                  "webpush_publisher.time = fixed clock, notification fresh (the 5-minute age gate is not the subject)",
                  "log statements removed at import"],
 )]
+
+MANIFEST = {
+    "level": "model_checking",
+    "text": "Bounded exhaustive symbolic execution (CrossHair/z3) of the real WebPushPublisher.publish_message / _get_subscriptions_for_topic / has_access against a reference written from the statement: 2 (quick) / 3 (thorough) users with solver-chosen topic selection, scope, role bits and unit listing, all required-role sets, contributor sets and notification subjects.",
+    "note": "Trusted: CrossHair bool/int models, z3, the in-memory repository (SQL IN / JSON contains semantics assumed), recorder instead of _post_webpush. 2-role universe, fixed subscription counts (2,1,1) per user, one process unit.",
+    "technique": "symbolic execution of the real code (CrossHair + z3) against a reference model, lazily drawn solver variables, bounded exhaustive, counterexample replay",
+}
